@@ -132,6 +132,13 @@ theorem mirror_getSTH_passthrough (rootFails storeFails : Bool) :
       if rootFails || storeFails then ErrKind.passthrough else ErrKind.ok := by
   cases rootFails <;> cases storeFails <;> rfl
 
+/-- `checkAuditPath` (regenerated loop, test `len(node) != sha256.Size`) is the model's `hashesOk` -/
+theorem hashesOk_is_checkAuditPath (ls : List Nat) : hashesOk ls = Gen.checkAuditPath (ls.any (· != 32)) := by
+  simp only [hashesOk, Gen.checkAuditPath]
+  induction ls with
+  | nil => rfl
+  | cons x xs ih => by_cases h : x = 32 <;> simp_all [List.all_cons, List.any_cons]
+
 /-! ## get-sth-consistency -/
 
 def parseCons (q : Req) : Option (Int × Int) :=
